@@ -70,6 +70,7 @@ def _work(item):
 def _items(ctx):
     items = []
     plan = [("x86", "gprA", False), ("x86", "gprBP", True), ("x86", "gprR8", True),
+            ("x86", "gprAH", True), ("x86", "gprSI", True),
             ("x86", "vec", True), ("a64", "gpr", False), ("a64", "vec", True),
             ("a64", "pred", True), ("a64p3", "gpr", True)]
     if ctx.thorough:
